@@ -10,8 +10,51 @@ import (
 	"fmt"
 	"math/rand"
 
+	"git.metabarcoding.org/obitools/obitools4/obitools4/pkg/obialign"
 	"git.metabarcoding.org/obitools/obitools4/obitools4/pkg/obiseq"
+	"git.metabarcoding.org/obitools/obitools4/obitools4/pkg/obitools/obipairing"
 )
+
+// c07Paired makes a consensus with the library's own read pairing: two reads of one fragment overlapping by 25+
+// bases, with one to three substitutions in the overlap whose qualities sweep the whole range (2..40), so that the
+// pairing_mismatches annotation is the one the library itself writes (keys included).
+func c07Paired(rng *rand.Rand) *obiseq.BioSequence {
+	L := 70 + rng.Intn(60)
+	frag := make([]byte, L)
+	for i := range frag {
+		frag[i] = "acgt"[rng.Intn(4)]
+	}
+	o := 30 + rng.Intn(20)
+	la := (L + o) / 2
+	a := append([]byte{}, frag[:la]...)
+	b := append([]byte{}, frag[L-(L+o-la):]...)
+	qa, qb := make([]byte, len(a)), make([]byte, len(b))
+	for i := range qa {
+		qa[i] = byte(30 + rng.Intn(11))
+	}
+	for i := range qb {
+		qb[i] = byte(30 + rng.Intn(11))
+	}
+	for k := 1 + rng.Intn(3); k > 0; k-- {
+		p := la - o + 3 + rng.Intn(o-6) // a position of the fragment inside the overlap
+		c := "acgt"[rng.Intn(4)]
+		for c == frag[p] {
+			c = "acgt"[rng.Intn(4)]
+		}
+		q := byte(2 + rng.Intn(39))
+		if rng.Intn(2) == 0 {
+			a[p], qa[p] = c, q
+			if rng.Intn(2) == 0 {
+				qb[p-(L-len(b))] = byte(2 + rng.Intn(12)) // both scores below 10
+			}
+		} else {
+			b[p-(L-len(b))], qb[p-(L-len(b))] = c, q
+		}
+	}
+	sa := obiseq.NewBioSequenceWithQualities("pa", a, "", qa)
+	sb := obiseq.NewBioSequenceWithQualities("pb", b, "", qb)
+	return obipairing.AssemblePESequences(sa, sb, 2, 1, 5, 20, 0.8, true, false, false, true, obialign.MakePEAlignArena(150, 150), nil)
+}
 
 type c07Step struct {
 	c07Op
@@ -78,6 +121,15 @@ func c07RandVal(rng *rand.Rand, n int) c07Val {
 			used[qx] = true
 			v.MM = append(v.MM, c07MM{P: p, X: string("acgt"[rng.Intn(4)]), QX: qx, Y: string("acgtrykm"[rng.Intn(8)]), QY: rng.Intn(90)})
 		}
+	}
+	if rng.Intn(3) == 0 {
+		// a feature table as the EMBL / GenBank readers attach it (below and above the 1024-byte limit of the slice pool)
+		k := []int{24, 120, 320, 700, 1024, 1500}[rng.Intn(6)]
+		f := make([]byte, k)
+		for i := range f {
+			f[i] = "FT source/=1.CDS"[rng.Intn(16)]
+		}
+		v.Feat = string(f)
 	}
 	return v
 }
@@ -290,9 +342,23 @@ func recordC07(env *Env) {
 				if k >= nsteps {
 					return c07Op{}, false
 				}
+				if k == 0 && i%8 == 3 {
+					// the first object is a consensus made by the library's read pairing
+					var obj *obiseq.BioSequence
+					func() {
+						defer func() { recover() }()
+						obj = c07Paired(rng)
+					}()
+					if obj != nil {
+						return c07Op{Op: "new", R: 1, V: observe(obj), prebuilt: obj}, true
+					}
+				}
 				return c07RandomOp(rng, h, maxLen)
 			})
 			events[i] = c07Event{Kind: "long", N: nobj, Steps: steps}
+			if i%8 == 3 {
+				events[i].Kind = "paired"
+			}
 		}
 	})
 	for _, e := range events {
